@@ -11,12 +11,6 @@ impl vstd::std_specs::cmp::PartialEqSpecImpl for Inp {
     open spec fn eq_spec(&self, other: &Inp) -> bool { *self == *other }
 }
 
-/// what dfa_from_regex needs of its regex: a bottom-up arena with the root in it and a follow
-/// cache that nobody filled before (Regex::from_expr builds it with an empty one)
-spec fn regex_wf(re: Regex) -> bool {
-    arena_wf(re.arena@) && nid(re.root_id) < re.arena@.len() && !cell_preset(re.follow_cache)
-}
-
 /// the automaton symbol of a regex item: its own text, description and `||` level; a within-word
 /// item becomes the automaton id the cache holds for its regex id
 spec fn lab(input: RegexInput, c: Map<RegexId, DFAId>) -> Inp {
@@ -55,24 +49,6 @@ proof fn lemma_lab_mono(input: RegexInput, c: Map<RegexId, DFAId>, c2: Map<Regex
 /// every cached automaton id names an automaton of the pool
 spec fn cache_in_range(c: Map<RegexId, DFAId>, n: int) -> bool {
     forall|k: RegexId| #[trigger] c.contains_key(k) ==> (c[k].0 as int) < n
-}
-
-/// what from_input needs of the pool of within-word regexes: each is a regex dfa_from_regex can
-/// take, and the within-word items inside it point into the pool again
-spec fn regex_pool_ok(pool: Seq<Regex>) -> bool {
-    forall|i: int| 0 <= i < pool.len() ==> regex_ready(#[trigger] pool[i], pool.len() as int)
-}
-
-spec fn regex_ready(re: Regex, npool: int) -> bool {
-    regex_wf(re) && re.input_from_position@.len() <= u32::MAX
-    && (forall|p: int| 0 <= p < re.input_from_position@.len() ==> input_ok(#[trigger] re.input_from_position@[p], npool))
-}
-
-spec fn input_ok(input: RegexInput, npool: int) -> bool {
-    match input {
-        RegexInput::Subword { subword_regex_id, fallback_level, span } => (subword_regex_id.0 as int) < npool,
-        _ => true,
-    }
 }
 
 spec fn label(re: Regex, c: Map<RegexId, DFAId>, p: u32) -> Inp { lab(re.input_from_position@[p as int], c) }
